@@ -301,6 +301,44 @@ impl VersionO {
 //@ >>
 //@ end
 }
+// Version::apply_compaction, entire (the key-range surgery behind it, apply_compaction_inner, is unit lsmtk_surgery; here a
+// stub): a compaction that is applied has left the ongoing list; when the surgery fails it has left it already or is
+// still on it (nothing else happens to the list); one that is not on the list is refused without touching anything.
+#[verifier::external_body]
+struct OutputsV { _p: u8 }
+impl VersionO {
+    #[verifier::external_body]
+    fn apply_compaction_inner(&self, core: CoreArc, outputs: OutputsV) -> (r: Result<VersionO, SError>) { unimplemented!() }
+//@ extract lsmtk/src/tree/mod.rs | impl Version :: fn apply_compaction
+//@ ret r
+//@ rewrite-re X20 `(?s)fn apply_compaction\(\s*&self,\s*compaction: Compaction,\s*outputs: Vec<SstMetadata>,\s*\) -> Result<Self, SError>` => `fn apply_compaction(&mut self, compaction: CompactionC, outputs: OutputsV) -> Result<VersionO, SError>`
+//@ rewrite-re X23 `(?m)^\s*let mut ongoing_list = self\.ongoing\.lock\(\)\.unwrap\(\);\n` => ``
+//@ rewrite-re X13 `for \(idx, ongoing\) in ongoing_list\.iter\(\)\.enumerate\(\) \{` => `for idx in 0..self.ongoing.len() { let ongoing = &self.ongoing[idx];`
+//@ rewrite-re? X23 `\bongoing_list\b` => `self.ongoing`
+//@ rewrite-re X18 `Arc::ptr_eq\(ongoing, &compaction\.core\)` => `core_ptr_eq(ongoing, &compaction.core)`
+//@ rewrite-re? X7 `Err\(logic_error\("Provided a compaction that is not ongoing"\)\)` => `Err(not_ongoing_error())`
+//@ rewrite-re? X4 `self\.ongoing\.swap_remove\((\w+)\);` => `let _ = self.ongoing.swap_remove(\1);`
+//@ pre <<
+        distinct(old(self).ongoing@),
+//@ >>
+//@ post <<
+        // applied: it was on the list and is off it now
+        r is Ok ==> ids(old(self).ongoing@).contains(compaction.core.id())
+            && ids(final(self).ongoing@) =~= ids(old(self).ongoing@).remove(compaction.core.id()) && distinct(final(self).ongoing@),
+        // failed: off the list already, or still on it (the caller's error path releases it: region compaction_attempt)
+        r is Err ==> final(self).ongoing@ == old(self).ongoing@
+            || (ids(final(self).ongoing@) =~= ids(old(self).ongoing@).remove(compaction.core.id()) && distinct(final(self).ongoing@)),
+        !ids(old(self).ongoing@).contains(compaction.core.id()) ==> r is Err && final(self).ongoing@ == old(self).ongoing@,
+//@ >>
+//@ loop `for idx in` <<
+            invariant self.ongoing@ == old(self).ongoing@, distinct(self.ongoing@),
+                forall|k: int| 0 <= k < idx ==> (#[trigger] self.ongoing@[k]).id() != compaction.core.id(), /* contract-inv */
+//@ >>
+//@ after? `let _ = self.ongoing.swap_remove(` <<
+                proof { if self.ongoing@ == old(self).ongoing@.update(idx as int, old(self).ongoing@.last()).drop_last() { lemma_swap_remove_ids(old(self).ongoing@, self.ongoing@, idx as int); } }
+//@ >>
+//@ end
+}
 proof fn lemma_swap_remove_ids(l0: Seq<CoreArc>, l1: Seq<CoreArc>, i: int)
     requires 0 <= i < l0.len(), distinct(l0), l1 == l0.update(i, l0.last()).drop_last(),
     ensures ids(l1) =~= ids(l0).remove(l0[i].id()), distinct(l1), ids(l0).contains(l0[i].id()),
@@ -326,6 +364,6 @@ proof fn lemma_swap_remove_ids(l0: Seq<CoreArc>, l1: Seq<CoreArc>, i: int)
     assert(l0[i].id() == l0[i].id());
 }
 
-//@ min-verified 8
+//@ min-verified 9
 } // verus!
 fn main() {}
